@@ -43,8 +43,8 @@ class Source:
 
 class C14(Prop):
     id = 'C14'
-    quick_cases = 600
-    thorough_cases = 30000
+    quick_cases = 2000
+    thorough_cases = 100000
     rule = ('random scripts of ~40 start/stop/speed/assign/read operations on the real SimulatedClock whose time source '
             '(sismic.clock.clock.time) is replaced by a scripted one returning exact ints / Fractions (non-decreasing '
             'readings, equal readings frequent, speeds 0, fractions and large values); every value read and every '
